@@ -1,7 +1,7 @@
 """Vector (reduction-carrying) kernels: softmax / log_softmax / nll / cross-entropy / batch-norm.
 
 Not a registered property check.  `run_part(ctx, props_file)` is called by checks/c02.py, c09.py, c14.py with
-props_file in {"Props/C02_vector.v", "Props/C09_vector.v", "Props/C14_vector.v", "Props/C13_vector.v"} and performs
+props_file in {"Props/C02_vector.v", "Props/C09_vector.v", "Props/C14_vector.v", "Props/C13_vector.v", "Props/C06_vector.v"} and performs
 
   (a) translator   lib/py2coq/gen_veckernels.py : cpu_ops.py + nn/functional.py -> coq/Gen/GenVecKernels.v   (fail-closed)
   (b) self-check   IR evaluated with plain Python on every fibre of random N-D arrays vs the real kernels; the wrapper
@@ -10,6 +10,8 @@ props_file in {"Props/C02_vector.v", "Props/C09_vector.v", "Props/C14_vector.v",
   (d) oracle       judgement directly on the implementation through real Tensors (checks/kv_oracle.py):
                      C02: every input's .grad vs float64 central differences AND PyTorch autograd
                      C09: float32/float64 logits up to 1e4 vs a 60-digit mpmath reference
+                     C06: forward values of softmax/log_softmax (every dim), NLLLoss/CrossEntropyLoss (mean|sum|none), F.batch_norm and
+                          nn.BatchNorm1d/2d in every mode vs torch, float32 and float64
                      C14: both sides of cross-entropy = nll(log_softmax), log_softmax = log(softmax), values and gradients
                    a failing input becomes ctx.witness(...) (-> VIOLATION with a replay file).
 `replay_part(ctx, data)` re-runs a stored witness.
@@ -17,15 +19,17 @@ props_file in {"Props/C02_vector.v", "Props/C09_vector.v", "Props/C14_vector.v",
 import json, os, time
 from lib import common
 
-PROPS = ("Props/C02_vector.v", "Props/C09_vector.v", "Props/C14_vector.v", "Props/C13_vector.v")
+PROPS = ("Props/C02_vector.v", "Props/C09_vector.v", "Props/C14_vector.v", "Props/C13_vector.v", "Props/C06_vector.v")
 EXTRA_TARGETS = {   # only what the part needs: e.g. a broken batch-norm or nll-backward proof must not take the C09 part down
     "Props/C02_vector.v": ["Analysis/Vector.vo", "Gen/GenVecKernels.vo", "Proofs/VecKernelProofs.vo", "Proofs/VecKernelProofsLossFwd.vo",
-                           "Proofs/VecKernelProofsLossBwd.vo", "Proofs/VecKernelProofsBN.vo"],
+                           "Proofs/VecKernelProofsLossBwd.vo", "Proofs/VecKernelProofsBNFwd.vo", "Proofs/VecKernelProofsBN.vo"],
     "Props/C09_vector.v": ["Analysis/Vector.vo", "Gen/GenVecKernels.vo", "Proofs/VecKernelProofs.vo", "Proofs/VecKernelProofsLossFwd.vo",
                            "Proofs/VecKernelProofsStability.vo"],
     "Props/C14_vector.v": ["Analysis/Vector.vo", "Gen/GenVecKernels.vo", "Proofs/VecKernelProofs.vo", "Proofs/VecKernelProofsLossFwd.vo",
                            "Proofs/VecKernelProofsLossBwd.vo"],
     "Props/C13_vector.v": ["Analysis/Vector.vo", "Gen/GenVecKernels.vo", "Proofs/VecKernelProofsBNStats.vo"],
+    "Props/C06_vector.v": ["Analysis/Vector.vo", "Gen/GenVecKernels.vo", "Proofs/VecKernelProofs.vo", "Proofs/VecKernelProofsLossFwd.vo",
+                           "Proofs/VecKernelProofsForward.vo", "Proofs/VecKernelProofsBNFwd.vo", "Proofs/VecKernelProofsBNStats.vo"],
 }
 
 NEEDS = {   # kernels / wrappers a part's theorems mention: only their translation failures break that part's tie
@@ -36,6 +40,10 @@ NEEDS = {   # kernels / wrappers a part's theorems mention: only their translati
                            "nll_loss_forward", "nll_loss_backward", "cross_entropy_loss_forward", "cross_entropy_loss_backward",
                            "wrapper:softmax", "wrapper:log_softmax", "wrapper:nll_loss", "wrapper:cross_entropy"},
     "Props/C13_vector.v": {"batch_norm_forward"},
+    "Props/C06_vector.v": {"softmax_forward", "log_softmax_forward", "nll_loss_forward", "cross_entropy_loss_forward", "batch_norm_forward",
+                           "wrapper-forward:softmax", "wrapper-forward:log_softmax", "wrapper-forward:nll_loss",
+                           "wrapper-forward:cross_entropy", "wrapper-forward:batch_norm",
+                           "losses:Loss.__call__", "losses:NLLLoss", "losses:CrossEntropyLoss"},
 }
 
 _done = {}     # per process: translator + self-check are run once even if several parts are requested
@@ -50,7 +58,7 @@ def _translate_and_selfcheck(ctx, props_file):
     try:
         ir, w, txt = G.generate(common.REPO)
         changed = common.write_if_changed(os.path.join(common.COQ, G.OUT_REL), txt)
-        ctx.log("veckernels: translated %d kernels, %d wrappers%s" % (len(ir["kernels"]), len(w) - 1, " (Gen file changed)" if changed else ""))
+        ctx.log("veckernels: translated %d kernels, %d wrappers%s" % (len(ir["kernels"]), len([k for k in w if not k.startswith("__")]), " (Gen file changed)" if changed else ""))
         fails = G.all_failures(ir, w)
         need = NEEDS[props_file]
         mine = {k: v for k, v in fails.items() if need is None or k in need}
@@ -80,6 +88,10 @@ def _translate_and_selfcheck(ctx, props_file):
     ctx.tie("veckernels/wrapper-wiring", "translator-selfcheck", wc, wc, wm,
             note="nn/functional wrappers run on real Tensors with a recording backward kernel: identity of the arrays handed over "
                  "(input vs output vs saved statistics) and which kernel result each input's .grad receives")
+    lc, lm = S.selfcheck_losses(ir, w, impl, ctx.rng)
+    ctx.tie("veckernels/loss-reductions", "translator-selfcheck", lc, lc, lm,
+            note="nn.NLLLoss / nn.CrossEntropyLoss x {sum, mean, none} on real Tensors vs per-row IR value + the reduction "
+                 "translated from Loss.__call__ (nn/losses.py)")
     _done["ir"], _done["w"] = ir, w
     return ir, w
 
@@ -167,6 +179,135 @@ def oracle_c14(ctx):
                        {"identity": "ls", "x": z.tolist(), "dim": dim, "g": g.tolist()}, v)
     res = {"cases": n_cases, "witnesses": witnesses}
     ctx.extra["oracle_c14_vector"] = res
+    return res
+
+
+# ------------------------------------------------------------------------------------------------------
+# C06 oracle: forward VALUES through real Tensors / modules vs torch, float32 and float64
+def _c06_judge(case):
+    """None or (expected, observed, note).  case["kind"] in softmax | log_softmax | loss | bn_functional | bn_layer"""
+    from lib import impl
+    import numpy as np, torch
+    sg, NF, nn = impl.synapgrad, impl.NF, impl.nn
+    F = torch.nn.functional
+    dt = np.float32 if case["dtype"] == "float32" else np.float64
+    tdt = torch.float32 if case["dtype"] == "float32" else torch.float64
+    A = lambda a: None if a is None else np.array(a, dtype=dt)
+    T = lambda a: None if a is None else sg.Tensor(A(a))
+    TT = lambda a: None if a is None else torch.tensor(A(a), dtype=tdt)
+    x = A(case["x"])
+    kind = case["kind"]
+    with torch.no_grad():
+        if kind in ("softmax", "log_softmax"):
+            ref = (torch.softmax if kind == "softmax" else torch.log_softmax)(TT(x), case["dim"]).numpy()
+        elif kind == "loss":
+            y = torch.tensor(case["labels"], dtype=torch.long)
+            red = case["reduction"] if case["reduction"] in ("mean", "sum") else "none"
+            ref = (F.nll_loss if case["cls"] == "NLLLoss" else F.cross_entropy)(TT(x), y, reduction=red).numpy()
+        else:
+            tr = bool(case["training"])
+            stats = case["running_mean"] is not None
+            trm, trv = TT(case["running_mean"]), TT(case["running_var"])
+            ref = F.batch_norm(TT(x), trm, trv, TT(case["weight"]), TT(case["bias"]),
+                               tr or not stats, case["momentum"], case["eps"]).numpy()
+            ref_stats = None if not stats else (trm.numpy(), trv.numpy())
+    try:
+        with np.errstate(all="ignore"):
+            if kind in ("softmax", "log_softmax"):
+                out = (NF.softmax if kind == "softmax" else NF.log_softmax)(T(x), case["dim"])
+            elif kind == "loss":
+                mod = (nn.NLLLoss if case["cls"] == "NLLLoss" else nn.CrossEntropyLoss)(reduction=case["reduction"])
+                out = mod(T(x), sg.Tensor(np.array(case["labels"], dtype=np.int64)))
+            elif kind == "bn_functional":
+                srm, srv = T(case["running_mean"]), T(case["running_var"])
+                out = NF.batch_norm(T(x), T(case["weight"]), T(case["bias"]), srm, srv,
+                                    bool(case["training"]), case["momentum"], case["eps"])
+                obs_stats = None if srm is None else (np.array(srm.data), np.array(srv.data))
+            else:
+                cls = nn.BatchNorm1d if x.ndim <= 3 else nn.BatchNorm2d
+                affine, track = case["weight"] is not None, case["running_mean"] is not None
+                mod = cls(x.shape[1], eps=case["eps"], momentum=case["momentum"], affine=affine, track_running_stats=track, dtype=dt)
+                if affine:
+                    mod.weight.data = A(case["weight"]); mod.bias.data = A(case["bias"])
+                if track:
+                    mod.running_mean.data = A(case["running_mean"]); mod.running_var.data = A(case["running_var"])
+                mod.train() if case["training"] else mod.eval()
+                out = mod(T(x))
+                obs_stats = None if not track else (np.array(mod.running_mean.data), np.array(mod.running_var.data))
+        obs = np.array(out.data)
+    except Exception as ex:
+        return ref.tolist(), "raised " + repr(ex)[:200], "the forward call raises on an input PyTorch accepts"
+    tol = (1e-4 if case["dtype"] == "float32" else 1e-9) * max(1.0, float(np.max(np.abs(ref))) if ref.size else 1.0)
+    if obs.size != ref.size:
+        return ref.tolist(), obs.tolist(), "result has %d elements (shape %s), PyTorch's has %d (shape %s)" % (obs.size, obs.shape, ref.size, ref.shape)
+    squeeze_ok = kind == "loss" and case["reduction"] not in ("mean", "sum")      # (N,1) vs PyTorch's (N,): the library's documented layout
+    if obs.shape != ref.shape and not squeeze_ok:
+        return ref.tolist(), obs.tolist(), "result shape %s, PyTorch %s" % (obs.shape, ref.shape)
+    o64, r64 = obs.astype(np.float64).reshape(-1), ref.astype(np.float64).reshape(-1)
+    if not np.all(np.isfinite(o64)) or np.any(np.abs(o64 - r64) > tol):
+        return ref.tolist(), obs.tolist(), "forward value differs from PyTorch by more than %.1e (%s)" % (tol, case["dtype"])
+    if kind.startswith("bn_") and ref_stats is not None and x.size // x.shape[1] > 1:
+        for name, o, r in zip(("running_mean", "running_var"), obs_stats, ref_stats):
+            o, r = o.astype(np.float64), r.astype(np.float64)
+            t = (1e-4 if case["dtype"] == "float32" else 1e-9) * max(1.0, float(np.max(np.abs(r))))
+            if o.shape != r.shape or np.any(np.abs(o - r) > t):
+                return {name: r.tolist()}, {name: o.tolist()}, "%s after the call differs from PyTorch's buffer (update uses the unbiased variance var*n/(n-1))" % name
+    return None
+
+
+def oracle_c06(ctx):
+    import numpy as np
+    rs = np.random.RandomState(ctx.rng.randrange(2 ** 31))
+    cases = []
+    reps = 3 if ctx.quick else 12
+    for dtype in ("float32", "float64"):
+        for rank in (1, 2, 3, 4):
+            for _ in range(2 * reps):
+                shape = tuple(int(rs.randint(1, 5)) for _ in range(rank))
+                x = (rs.standard_normal(shape) * float(rs.choice([0.5, 3.0, 20.0]))).tolist()
+                for dim in range(-rank, rank):
+                    for kind in ("softmax", "log_softmax"):
+                        cases.append({"kind": kind, "dtype": dtype, "dim": dim, "x": x})
+        for _ in range(8 * reps):
+            N, C = int(rs.randint(1, 6)), int(rs.randint(1, 6))
+            x = (rs.standard_normal((N, C)) * float(rs.choice([1.0, 5.0]))).tolist()
+            labels = rs.randint(0, C, size=N).tolist()
+            for cls in ("NLLLoss", "CrossEntropyLoss"):
+                for red in ("mean", "sum", "none"):
+                    cases.append({"kind": "loss", "cls": cls, "reduction": red, "dtype": dtype, "x": x, "labels": labels})
+        for training in (True, False):
+            for aff in (True, False):
+                for stats in (True, False):
+                    for rank in (2, 3, 4):
+                        for _ in range(reps):
+                            C = int(rs.randint(1, 4))
+                            shape = (int(rs.randint(2, 5)), C) + tuple(int(rs.randint(1, 4)) for _ in range(rank - 2))
+                            base = {"dtype": dtype, "training": training, "momentum": float(rs.choice([0.1, 0.3])),
+                                    "eps": float(rs.choice([1e-5, 1e-3, 0.1])),
+                                    "x": (rs.standard_normal(shape) * float(rs.choice([1.0, 4.0])) + float(rs.choice([0.0, 2.0, -3.0]))).tolist(),
+                                    "weight": rs.uniform(-2, 2, C).tolist() if aff else None, "bias": rs.uniform(-2, 2, C).tolist() if aff else None,
+                                    "running_mean": rs.uniform(-2, 2, C).tolist() if stats else None,
+                                    "running_var": rs.uniform(0.3, 3, C).tolist() if stats else None}
+                            cases.append(dict(base, kind="bn_functional"))
+                            cases.append(dict(base, kind="bn_layer"))
+    witnesses = 0
+    by = {}
+    for case in cases:
+        by[case["kind"]] = by.get(case["kind"], 0) + 1
+        v = _c06_judge(case)
+        if v:
+            witnesses += 1
+            if witnesses <= 3:
+                site = {"softmax": "nn.functional.softmax/forward", "log_softmax": "nn.functional.log_softmax/forward",
+                        "bn_functional": "nn.functional.batch_norm/forward", "bn_layer": "nn.BatchNorm/forward"}.get(case["kind"]) \
+                    or "nn.%s/forward" % case["cls"]
+                klass = "%s %s" % (case["dtype"], "dim=%s" % case["dim"] if "dim" in case else
+                                   ("reduction=%s" % case["reduction"] if "reduction" in case else
+                                    "training=%s affine=%s running=%s rank=%d" % (case["training"], case["weight"] is not None,
+                                                                                   case["running_mean"] is not None, np.ndim(case["x"]))))
+                ctx.witness(site, klass, dict(case, oracle="c06"), v[0], v[1], v[2])
+    res = {"cases": len(cases), "by_kind": by, "witnesses": witnesses}
+    ctx.extra["oracle_c06_vector"] = res
     return res
 
 
@@ -262,6 +403,8 @@ def run_part(ctx, props_file):
         res = kv_oracle.oracle_c09(ctx)
     elif props_file.endswith("C13_vector.v"):
         res = oracle_c13_stats(ctx)
+    elif props_file.endswith("C06_vector.v"):
+        res = oracle_c06(ctx)
     else:
         res = oracle_c14(ctx)
     ctx.log("veckernels oracle for %s: %s (%.1fs)" % (props_file, {k: v for k, v in res.items() if k in ("cases", "witnesses", "rejected")}, time.time() - t0))
@@ -278,6 +421,10 @@ def replay_part(ctx, data):
     if data.get("kind") != "failing-input":
         print(json.dumps(data.get("broken"), indent=1)); return 1
     inp = data.get("input", {})
+    if inp.get("oracle") == "c06":
+        v = _c06_judge({k: v for k, v in inp.items() if k != "oracle"})
+        print("still fails:" if v else "passes now:", json.dumps(v, default=str)[:600])
+        return 1 if v else 0
     if inp.get("oracle") == "c13":
         v = _c13_judge(inp)
         print("still fails:" if v else "passes now:", json.dumps(v, default=str)[:600])
